@@ -1,7 +1,13 @@
 use cfg_if::cfg_if;
+#[cfg(not(sentinel_verif))]
 use lazy_static::lazy_static;
+#[cfg(sentinel_verif)]
+use sentinel_verif_rt::lazy_static;
 pub use log::{debug, error, info, trace, warn};
+#[cfg(not(sentinel_verif))]
 use std::sync::Once;
+#[cfg(sentinel_verif)]
+use sentinel_verif_rt::sync::Once;
 
 lazy_static! {
     pub static ref FREQUENT_ERROR_ONCE: Once = Once::new();
